@@ -11,11 +11,13 @@
    Statements: coq/proofs/LibraryProofs.v (Section Statements), over the library
    state machine coq/model/Library.v, for every body type, fact type, condition
    semantics, map iteration order, and every operation history (no bound).
-   Full: unique names, build verdict / existing rule stays / stored as written, a rejected build changes nothing
-   (KnowledgeBase.Checkpoint, engine commit 4ed034e), removal from an instance, what can be
-   evaluated-fired-fetched, removal from the library at the level of the NAME (also across store+load), re-use of
-   the name, frame.  Refuted on the faithful model, with a partial theorem:
-     D8   the removed RULE is in force again after store+load (tombstone without flag). *)
+   Full, all of them: unique names, build verdict / existing rule stays / stored as written, a rejected build changes
+   nothing (KnowledgeBase.Checkpoint, engine commit 4ed034e), removal from an instance, what can be
+   evaluated-fired-fetched, removal from the library at the level of the NAME and of the RULE (the tombstone entry stays
+   out of force in every reachable state, across any number of store+load round trips: BuildKnowledgeBase reads the
+   flag off the tombstone name, engine commit 01c7ce8), re-use of the name, frame.
+   Assumption (ops_user): rule names given to the builder do not start with "Deleted_" - the engine's own naming
+   convention for removed rules; a user rule literally named like a tombstone would be read as removed on load. *)
 From Grule Require Import Base EngineGen EngineAbs Library LibraryProofs.
 
 Theorem C16_unique_names : forall B F holds self zap order, C16_unique_names_statement B F holds self zap order.
@@ -42,13 +44,9 @@ Theorem C16_removed_from_library : forall B F holds self zap order, C16_removed_
 Proof. exact C16_removed_from_library_proved. Qed.
 Print Assumptions C16_removed_from_library.
 
-Theorem C16_removed_rules_refuted : ~ removed_rules_stay_removed_statement.
-Proof. exact removed_rules_stay_removed_refuted. Qed.
-Print Assumptions C16_removed_rules_refuted.
-
-Theorem C16_removed_rules_partial : forall B F holds self zap order, C16_removed_rules_partial_statement B F holds self zap order.
-Proof. exact C16_removed_rules_partial_proved. Qed.
-Print Assumptions C16_removed_rules_partial.
+Theorem C16_removed_rules : forall B F holds self zap order, C16_removed_rules_statement B F holds self zap order.
+Proof. exact C16_removed_rules_proved. Qed.
+Print Assumptions C16_removed_rules.
 
 Theorem C16_rebuild : forall B F holds self zap order, C16_rebuild_statement B F holds self zap order.
 Proof. exact C16_rebuild_proved. Qed.
